@@ -239,7 +239,11 @@ func driveICS20(t *testing.T, in, out string, seed int64) {
 				case "blocked":
 					recv = authtypes.NewModuleAddress(authtypes.FeeCollectorName).String()
 				}
-				data := transfertypes.FungibleTokenPacketData{Denom: base, Amount: amount, Sender: sender.SenderAccount.GetAddress().String(), Receiver: recv}
+				from := sender.SenderAccount.GetAddress().String()
+				if str(st["recv"]) == "hexsender" {
+					from = "0x" + hex.EncodeToString(sender.SenderAccount.GetAddress().Bytes()) // a counterparty whose addresses are not bech32
+				}
+				data := transfertypes.FungibleTokenPacketData{Denom: base, Amount: amount, Sender: from, Receiver: recv}
 				*seqp++
 				packet := channeltypes.NewPacket(data.GetBytes(), *seqp, path.EndpointA.ChannelConfig.PortID, path.EndpointA.ChannelID,
 					path.EndpointB.ChannelConfig.PortID, path.EndpointB.ChannelID, clienttypes.NewHeight(clienttypes.ParseChainID(w.B.ChainID), 100000), 0)
